@@ -7,7 +7,9 @@
 pub mod fontcase;
 pub mod glyfgraph;
 pub mod iftdrv;
+pub mod klipdrv;
 pub mod skdrv;
+pub mod cff2prog;
 pub mod cffprog;
 pub mod sup;
 pub mod ttprog;
@@ -24,8 +26,10 @@ pub fn drivers() -> Vec<(&'static str, Driver)> {
         ("skrifa", drive_skrifa as Driver),
         ("ttprog", ttprog::drive as Driver),
         ("cffprog", cffprog::drive as Driver),
+        ("cff2prog", cff2prog::drive as Driver),
         ("ift", iftdrv::drive as Driver),
         ("glyfgraph", glyfgraph::drive as Driver),
+        ("klippa", drive_klippa as Driver),
     ]
 }
 
@@ -71,6 +75,46 @@ pub fn drive_skrifa(spec: &Value) -> CaseOut {
         return bad_case(format!("font case does not apply: {}", fc.to_json()));
     };
     skdrv::run(&bytes, &plan)
+}
+
+/// Drivers whose findings are outside C02's own statement: C02 records them as observations, C20 judges
+/// their arithmetic / debug-assert panics.
+pub fn is_observation_driver(driver: &str) -> bool {
+    driver == "klippa"
+}
+
+/// `{"driver":"klippa","font":{"seed":…,"devs":[…]}}` — observations only in C02, see `klipdrv`.
+pub fn drive_klippa(spec: &Value) -> CaseOut {
+    let Some(fc) = fontcase::FontCase::from_json(&spec["font"]) else {
+        return bad_case("klippa case without font".into());
+    };
+    let Some(bytes) = fc.bytes() else {
+        return bad_case(format!("font case does not apply: {}", fc.to_json()));
+    };
+    klipdrv::run(&bytes)
+}
+
+/// Case generator of the klippa phase: every seed accepted by `klipdrv::seed_filter(_, max_size)` unmodified,
+/// then every single deviation of the first `max_bytes` bytes of its `klipdrv::TABLE_KINDS` tables.
+pub fn gen_klippa_cases(max_size: usize, max_bytes: usize, rich: bool) -> Vec<Value> {
+    let mut out = vec![];
+    for (name, data) in fontcase::corpus().iter() {
+        if !klipdrv::seed_filter(data, max_size) {
+            continue;
+        }
+        let mk = |devs: Vec<fontcase::Dev>| json!({"driver": "klippa", "font": fontcase::FontCase { seed: name.clone(), devs }.to_json()});
+        out.push(mk(vec![]));
+        let dir = fontcase::table_dir(data);
+        for kind in klipdrv::TABLE_KINDS {
+            let Some((_, off, len)) = dir.iter().find(|(t, _, _)| t == kind) else {
+                continue;
+            };
+            for d in fontcase::table_deviations_ext(kind, &data[*off..*off + *len], max_bytes, rich) {
+                out.push(mk(vec![d]));
+            }
+        }
+    }
+    out
 }
 
 pub fn skrifa_case(fc: &fontcase::FontCase, plan: &str) -> Value {
@@ -121,6 +165,14 @@ pub fn gen_deviation_space(
 
 /// Tables that only feed metadata queries (no outline / hinting path reads them).
 pub const META_ONLY_TABLES: [&str; 4] = ["name", "post", "OS/2", "CPAL"];
+
+/// Fonts of the full memory cross (thorough).
+pub const MEMFULL_FONTS: [&str; 4] = [
+    "font-test-data/test_data/ttf/glyf_components.ttf",
+    "font-test-data/test_data/ttf/vazirmatn_var_trimmed.ttf",
+    "font-test-data/test_data/ttf/cvar.ttf",
+    "font-test-data/test_data/ttf/tthint_subset.ttf",
+];
 
 /// Seeds whose every configuration is expensive (AdobeBlank: a cmap covering all of Unicode that the
 /// auto-hinter walks per instance; Roboto: long glyph programs): deviated over fewer bytes.
@@ -195,7 +247,7 @@ pub fn viol_identity(v: &Viol) -> String {
 /// Batch drivers: restrict the replay case to the sub-case that failed.
 pub fn narrow(case: &Value, sub: u64) -> Value {
     let mut c = case.clone();
-    let batch = matches!(c["driver"].as_str(), Some("ttprog") | Some("cffprog")) && !c["o1"].is_null();
+    let batch = matches!(c["driver"].as_str(), Some("ttprog") | Some("cffprog") | Some("cff2prog")) && !c["o1"].is_null();
     let batch = batch || (c["driver"] == "glyfgraph" && !c["s0"].is_null());
     if batch && c["only"].is_null() {
         c["only"] = json!(sub);
@@ -210,7 +262,7 @@ pub fn narrow(case: &Value, sub: u64) -> Value {
 /// Batch drivers: the follow-up case that continues a batch after the sub-case that killed the worker.
 pub fn resume_batch(case_json: &str, f: &Failure) -> Option<String> {
     let mut c: Value = serde_json::from_str(case_json).ok()?;
-    let batch = (matches!(c["driver"].as_str(), Some("ttprog") | Some("cffprog")) && !c["o1"].is_null())
+    let batch = (matches!(c["driver"].as_str(), Some("ttprog") | Some("cffprog") | Some("cff2prog")) && !c["o1"].is_null())
         || (c["driver"] == "glyfgraph" && !c["s0"].is_null());
     if !batch || !c["only"].is_null() {
         return None;
@@ -272,6 +324,25 @@ pub fn phases(quick: bool) -> Result<Vec<Phase>, String> {
         0,
         vec![("corpus.plan".into(), skdrv::Plan::named(plan).unwrap().describe())],
     ));
+    // 1a'. thorough only: the caller-memory alphabet crossed with every size x coordinate vector x target x
+    // pedantic x glyph x path style, for a few small fonts (static with composites, variable+composite, variable+cvar, hinted)
+    if !quick {
+        let cases: Vec<Value> = MEMFULL_FONTS
+            .iter()
+            .filter(|f| fontcase::seed_bytes(f).is_some())
+            .map(|f| skrifa_case(&fontcase::FontCase { seed: f.to_string(), devs: vec![] }, "memfull"))
+            .collect();
+        out.push(vec_phase(
+            "memfull",
+            cases,
+            1,
+            0,
+            vec![
+                ("memfull.fonts".into(), json!(MEMFULL_FONTS)),
+                ("memfull.plan".into(), skdrv::Plan::named("memfull").unwrap().describe()),
+            ],
+        ));
+    }
     // 1b. one-byte / u16-boundary deviations of the corpus tables; byte budget per table: outline tables
     // and the small fixed headers get more
     let env_bytes: Option<usize> = std::env::var("C02_DEV_BYTES").ok().and_then(|s| s.parse().ok());
@@ -368,6 +439,22 @@ pub fn phases(quick: bool) -> Result<Vec<Phase>, String> {
                 "chain_depths": glyfgraph::CHAIN_DEPTHS, "chain_ends": ["simple", "cycle to glyph 0"]}),
         )],
     ));
+    // 2c. klippa subsetter (observations in C02, judged by C20)
+    let (ksize, kbytes) = if quick { (16 << 10, 32) } else { (1 << 20, 256) };
+    let kl = gen_klippa_cases(ksize, kbytes, !quick);
+    out.push(vec_phase(
+        "klippa",
+        kl,
+        8,
+        7,
+        vec![(
+            "klippa".into(),
+            json!({"seeds": format!("glyf-flavoured corpus fonts <= {ksize} bytes"), "tables": klipdrv::TABLE_KINDS,
+                "deviated_bytes_per_table": kbytes, "requests": klipdrv::REQUESTS,
+                "flag_sets": klipdrv::FLAG_SETS.iter().map(|f| f.0).collect::<Vec<_>>(),
+                "judged": "no (outside C02's statement; C20 judges arithmetic panics)"}),
+        )],
+    ));
     // 3. CFF charstring enumeration
     cffprog::sanity().map_err(|e| format!("cffprog assembler gate: {e}"))?;
     let cn = if quick { 2u32 } else { 3 };
@@ -382,6 +469,22 @@ pub fn phases(quick: bool) -> Result<Vec<Phase>, String> {
                 "preludes": cffprog::preludes().iter().map(|p| p.0).collect::<Vec<_>>(),
                 "subrs": "global {self-call, return, call local 0}, local {self-call, return, call global 0}",
                 "draws": "unhinted unscaled + 13.5, hinted interpreter (CFF hinter) 13.5, auto-hinter 13.5"}),
+        )],
+    ));
+    // 3b. CFF2 charstrings with blend / vsindex against a real variation store
+    cff2prog::sanity().map_err(|e| format!("cff2prog assembler gate: {e}"))?;
+    out.push(vec_phase(
+        "cff2prog",
+        cff2prog::gen_cases(cn),
+        1,
+        20,
+        vec![(
+            "cff2prog".into(),
+            json!({"max_tokens": cn, "token_alphabet": cff2prog::tokens().len(),
+                "preludes": cff2prog::preludes().iter().map(|p| p.0).collect::<Vec<_>>(),
+                "variation_store": "1 axis, regions {[0,1,1], [-1,-1,0]}, ivd0 -> {0,1}, ivd1 -> {1}, ivd2 -> {0, 5 (missing)}; vsindex 3 out of range",
+                "locations": ["default", "wght +0.5"],
+                "draws": "per location: unhinted unscaled + 13.5, hinted (CFF hinter) 13.5"}),
         )],
     ));
     // 4. IFT client tuples
